@@ -14,8 +14,9 @@ var fallbackZones = []string{"UTC", "America/Santiago", "America/Havana", "Ameri
 	"Asia/Kathmandu", "Australia/Eucla", "Asia/Tehran", "Pacific/Apia", "Pacific/Kiritimati", "Pacific/Chatham", "Australia/Lord_Howe", "America/New_York", "America/St_Johns",
 	"Asia/Kolkata", "Africa/Cairo", "Asia/Beirut", "Asia/Gaza", "America/Godthab", "Etc/GMT+12", "Etc/GMT-14", "Asia/Tokyo", "Europe/Berlin", "America/Los_Angeles", "Pacific/Auckland", "Africa/Casablanca", "Asia/Amman"}
 
-// oddZones are always part of the quick selection: skipped-midnight zones, numeric abbreviations, extremes, date-line hoppers.
-var oddZones = []string{"UTC", "America/Santiago", "America/Havana", "America/Asuncion", "America/Sao_Paulo", "Atlantic/Azores", "America/Scoresbysund", "Asia/Beirut", "Asia/Gaza", "Asia/Amman", "Asia/Damascus", "Africa/Cairo",
+// oddZones are always part of the quick selection: skipped-midnight zones, numeric abbreviations, extremes, date-line hoppers,
+// zones whose abbreviation is the same on both sides of a transition (SAST 1942-44, IST 1941-45).
+var oddZones = []string{"UTC", "Africa/Johannesburg", "Asia/Kolkata", "America/Santiago", "America/Havana", "America/Asuncion", "America/Sao_Paulo", "Atlantic/Azores", "America/Scoresbysund", "Asia/Beirut", "Asia/Gaza", "Asia/Amman", "Asia/Damascus", "Africa/Cairo",
 	"Europe/London", "Asia/Kathmandu", "Australia/Eucla", "Asia/Tehran", "Pacific/Apia", "Pacific/Kiritimati", "Pacific/Kwajalein", "Pacific/Chatham", "Australia/Lord_Howe", "America/New_York",
 	"America/St_Johns", "Etc/GMT+12", "Etc/GMT-14", "America/Campo_Grande", "America/Cuiaba", "America/Bahia", "Asia/Tokyo", "Europe/Berlin", "America/Los_Angeles", "Pacific/Auckland", "America/Godthab", "Antarctica/Troll", "Africa/Casablanca", "America/Punta_Arenas"}
 
